@@ -46,6 +46,7 @@ type Finding struct {
 	Count    int
 	Sched    []string
 	Events   []string
+	EngineOnly bool // asserts a fact only the engine observes (locks held): no native confirmation possible
 	Threads  int // goroutines alive when the finding was made (>1: the counterexample includes a schedule)
 }
 
@@ -544,6 +545,7 @@ func (in *Interp) finding(kind, id, msg string, m Model) {
 		f.Observe = in.observeValues(m)
 	}
 	f.Threads = len(in.threads)
+	f.EngineOnly = in.engineOnly
 	f.Sched = append([]string{}, in.schedLog...)
 	f.Events = append([]string{}, in.events...)
 	in.ex.addFinding(f)
